@@ -187,7 +187,7 @@ class DeferredSnapshotActionResult(ActionResult):
                 decorate = decorator.decorate(self.snapshot.id_str, self.action_context)
                 if decorate is not None:
                     attributes.merge_in(decorate)
-            except Exception:
+            except BaseException:
                 deep.logging.exception("Failed to decorate snapshot: %s ", decorator)
         self.snapshot.attributes.merge_in(attributes)
         return self.snapshot
